@@ -210,8 +210,30 @@ def _run_point(case, ctx):
     except Exception as exc:
         ctx.error("c06: construction failed", exc)
         return
+    converted = None
+    if case["seed"] % 3 == 0:
+        # a third of the isotherms were permanently converted before the export (labels set by the conversion, not the constructor)
+        step = r.choice(["loading->percent", "loading->fraction", "pressure->relative", "pressure->relative%", "material->volume", "loading->mass"])
+        try:
+            with numpy.errstate(all="ignore"):
+                if step.startswith("loading->"):
+                    tgt = step.split("->")[1]
+                    iso.convert_loading(basis_to=tgt, unit_to="mg" if tgt == "mass" else None)
+                elif step.startswith("pressure->"):
+                    iso.convert_pressure(mode_to=step.split("->")[1])
+                else:
+                    iso.convert_material(basis_to="volume", unit_to="cm3")
+            converted = step
+            ctx.count("converted_before_export", step)
+        except Exception:
+            ctx.count("converted_before_export", "refused: " + step)
+            try:
+                iso = gen.build_point(spec, route, branch="guess" if mode == "guess" else "explicit")
+            except Exception as exc:
+                ctx.error("c06: construction failed", exc)
+                return
     if r.random() < 0.03:
-        ctx.sample({"kind": "point", "units": spec["units"], "n": n, "meta": spec["meta"], "route": route, "branches": mode})
+        ctx.sample({"kind": "point", "units": dict(iso.units), "n": n, "meta": spec["meta"], "route": route, "branches": mode, "converted_before_export": converted})
     orig = iso.data_raw.copy(deep=True)
 
     def data_checks(back):
@@ -245,7 +267,7 @@ def _run_point(case, ctx):
         if list(map(str, cols_a)) != list(map(str, b.columns)):
             ctx.count("tabulated_only", "column order differs after round trip")
 
-    _roundtrip(ctx, iso, "point", {"spec": spec, "route": route, "mode": mode}, data_checks)
+    _roundtrip(ctx, iso, "point", {"spec": spec, "route": route, "mode": mode, "converted_before_export": converted}, data_checks)
 
 
 def _run_model(case, ctx):
